@@ -164,6 +164,7 @@ def finish(report, engine, out_dir=None, print_=print):
             'excluded': engine.prog.excluded,
             'known_findings': sorted(seen_known),
             'repo': engine.repo,
+            'renamed_functions_recognised': dict(engine.prog.renamed),
         },
         'assumptions': report.assumptions,
         'wall_s': round(time.time() - report.t0 + engine.build_s, 3),
